@@ -168,6 +168,10 @@ def dequeCall {α} (f : α → String) (xs : List α) (c : String) : String × L
   | 'B' => let r := xs.take (xs.length - k)
     (match r.getLast? with | none => ("-", []) | some x => (f x, r.dropLast))
   | 'l' => (s!"l{xs.length}", xs)
+  -- observations on a clone of the iterator: count(), last(), size_hint() of an exact-size iterator
+  | 'c' => (s!"c{xs.length}", xs)
+  | 'L' => ((match xs.getLast? with | none => "L-" | some x => "L" ++ f x), xs)
+  | 'h' => (s!"h{xs.length},{xs.length}", xs)
   | _ => ("?", xs)
 
 def dequeRun {α} (f : α → String) (xs : List α) (calls : List String) : String :=
@@ -189,7 +193,7 @@ def accessIterRun (v : IntVec) (calls : List String) : String :=
       | 'B' => let lim := lim - min k (lim - nx)
         if nx ≥ lim then (o ++ ["-"], nx, lim) else (o ++ [get (lim - 1)], nx, lim - 1)
       | 'l' => (o ++ [s!"l{lim - nx}"], nx, lim)
-      | _ => (o ++ ["?"], nx, lim)) ([], 0, v.len)
+      | _ => (o ++ ["*"], nx, lim)) ([], 0, v.len)
   " ".intercalate out
 
 def itemWidth (ty : String) : Nat :=
